@@ -245,47 +245,14 @@ Proof.
   intros n Hi. destruct (Hn n Hi) as [g Hg]. split; [exists g; exact Hg | eapply Hb; exact Hg].
 Qed.
 
-(* ---- related fragments = reachable fragments, under the coverage guard ---- *)
-Lemma related_sound fuel frs o mix unp rel :
-  related fuel frs mix unp = Some rel -> recorded_reachable fuel frs o mix unp = true ->
-  forall n, In n rel -> reach frs (sel_spreads (o_sel o)) n.
-Proof.
-  unfold related, recorded_reachable. intros Hrel Hrr n Hn.
-  destruct (frag_names fuel frs mix) as [l|] eqn:El; [|discriminate]. inversion Hrel; subst; clear Hrel.
-  destruct (frag_names fuel frs (sel_spreads (o_sel o))) as [r|] eqn:Er; [|discriminate].
-  rewrite forallb_forall in Hrr.
-  assert (Hrec : forall m, In m (mix ++ unp) -> reach frs (sel_spreads (o_sel o)) m).
-  { intros m Hm. eapply frag_names_sound; [exact Er|]. apply mem_In. apply Hrr. exact Hm. }
-  apply (proj1 (sorted_set_In _ _)) in Hn. apply in_app_or in Hn as [Hn|Hn].
-  - apply (reach_trans frs _ mix); [|eapply frag_names_sound; [exact El | exact Hn]].
-    intros m Hm. apply Hrec. apply in_or_app. left. exact Hm.
-  - apply Hrec. apply in_or_app. right. exact Hn.
-Qed.
-
-Lemma related_complete fuel frs o mix unp rel :
-  related fuel frs mix unp = Some rel -> covered frs o rel unp = true ->
-  forall n, reach frs (sel_spreads (o_sel o)) n -> In n rel.
-Proof.
-  unfold related, covered. intros Hrel Hc n Hr.
-  destruct (frag_names fuel frs mix) as [l|] eqn:El; [|discriminate]. inversion Hrel; subst; clear Hrel.
-  apply andb_true_iff in Hc as [Hc1 Hc2]. rewrite forallb_forall in Hc1, Hc2.
-  induction Hr.
-  - apply mem_In. apply Hc1. assumption.
-  - apply (proj1 (sorted_set_In _ _)) in IHHr. apply in_app_or in IHHr as [Hm|Hm].
-    + apply (proj2 (sorted_set_In _ _)). apply in_or_app. left. eapply frag_names_closed; eassumption.
-    + specialize (Hc2 m Hm). rewrite H in Hc2. rewrite forallb_forall in Hc2.
-      apply mem_In. apply Hc2. assumption.
-Qed.
-
-Theorem related_exact fuel frs o mix unp rel :
-  related fuel frs mix unp = Some rel ->
-  covered frs o rel unp = true -> recorded_reachable fuel frs o mix unp = true ->
+(* ---- related fragments = reachable fragments ---- *)
+Theorem related_exact fuel frs o rel :
+  related fuel frs o = Some rel ->
   (forall n, In n rel <-> reach frs (sel_spreads (o_sel o)) n) /\ NoDup rel.
 Proof.
-  intros Hrel Hc Hr. split.
-  - intro n. split; [eapply related_sound | eapply related_complete]; eassumption.
-  - unfold related in Hrel. destruct (frag_names fuel frs mix); [|discriminate].
-    inversion Hrel. apply sorted_set_NoDup.
+  unfold related. intro H. destruct (frag_names fuel frs (sel_spreads (o_sel o))) as [l|] eqn:El; [|discriminate].
+  inversion H; subst. split; [|apply sorted_set_NoDup].
+  intro n. rewrite sorted_set_In. eapply frag_names_exact. exact El.
 Qed.
 
 (* ---------------------------------------------------------------- the documented rewrites *)
@@ -363,7 +330,7 @@ Qed.
 Lemma op_document_shape fuel C Sc frs ins o doc ins' :
   op_document fuel C Sc frs ins o = Ok (doc, ins') ->
   exists st rel defs,
-    related fuel frs (ps_mix st) (ps_unp st) = Some rel /\ lookup_all frs rel = Some defs /\
+    related fuel frs o = Some rel /\ lookup_all frs rel = Some defs /\
     ins' = ps_ins st /\
     doc = XOp (strip_op (apply_op ins' o)) :: map (fun f => XFrag (strip_fd (apply_fd ins' f))) defs /\
     op_sets fuel C Sc frs ins o = Ok (ps_mix st, ps_unp st).
@@ -372,7 +339,7 @@ Proof.
   destruct (root_type_name Sc (o_kind o)) as [tn|]; simpl; [|discriminate].
   destruct (ptd fuel C Sc frs (map proj_frag frs) (fresh ins) (pascal_s (o_name o)) tn None (o_sel o) false)
     as [st|]; simpl; [|discriminate].
-  destruct (related fuel frs (ps_mix st) (ps_unp st)) as [rel|] eqn:Er; [|discriminate].
+  destruct (related fuel frs o) as [rel|] eqn:Er; [|discriminate].
   destruct (lookup_all frs rel) as [defs|] eqn:El; [|discriminate].
   intro H. inversion H; subst. exists st, rel, defs. auto.
 Qed.
@@ -421,7 +388,7 @@ Proof.
     intros x Hx. apply H; auto.
 Qed.
 
-Lemma strip_sel_all : forall s, mixin_only_on_fields_sel s = true -> strip_sel s = strip_all_sel s.
+Lemma strip_sel_all : forall s, mixin_located_sel s = true -> strip_sel s = strip_all_sel s.
 Proof.
   induction s using fsel_rect'; simpl; intro Hm; try reflexivity.
   - destruct sub as [l|]; [|reflexivity]. f_equal. f_equal. apply map_ext_in.
@@ -431,7 +398,7 @@ Proof.
     apply map_ext_in. rewrite forallb_forall in H2. rewrite Forall_forall in H. intros x Hx. apply H; auto.
 Qed.
 
-Lemma strip_ddef_all d : mixin_only_on_fields d = true ->
+Lemma strip_ddef_all d : mixin_located d = true ->
   match d with XOp o => XOp (strip_op o) | XFrag f => XFrag (strip_fd f) end = strip_all_ddef d.
 Proof.
   destruct d as [o|f]; simpl; intro H.
@@ -441,16 +408,15 @@ Proof.
       unfold strip_dirs. rewrite filter_id by (apply H2; exact Hv). destruct v; reflexivity.
     + unfold strip_dirs. rewrite filter_id by exact H1. reflexivity.
     + apply map_ext_in. rewrite forallb_forall in H3. intros x Hx. apply strip_sel_all. auto.
-  - apply andb_true_iff in H as [H1 H2]. unfold strip_fd. f_equal. destruct f; simpl in *. f_equal.
-    + unfold strip_dirs. rewrite filter_id by exact H1. reflexivity.
-    + apply map_ext_in. rewrite forallb_forall in H2. intros x Hx. apply strip_sel_all. auto.
+  - unfold strip_fd. f_equal. destruct f; simpl in *. f_equal.
+    apply map_ext_in. rewrite forallb_forall in H. intros x Hx. apply strip_sel_all. auto.
 Qed.
 
-(* every @mixin is gone from the sent document when @mixin stands on fields only *)
-Theorem documented_rewrites_partial fuel C Sc frs ins o doc ins' :
+(* every @mixin is gone from the sent document (valid input: @mixin only at its declared locations) *)
+Theorem documented_rewrites fuel C Sc frs ins o doc ins' :
   op_document fuel C Sc frs ins o = Ok (doc, ins') ->
   authored_op o = true -> forallb authored_fd frs = true ->
-  mixin_only_on_fields (XOp o) = true -> forallb (fun f => mixin_only_on_fields (XFrag f)) frs = true ->
+  mixin_located (XOp o) = true -> forallb (fun f => mixin_located (XFrag f)) frs = true ->
   exists defs, Forall (fun f => In f frs) defs /\
     map erase_ddef doc = map strip_all_ddef (XOp o :: map XFrag defs).
 Proof.
@@ -490,26 +456,14 @@ Proof.
   induction defs as [|f r IH]; cbn [map flat_map app]; [reflexivity|]. rewrite Hg, IH. reflexivity.
 Qed.
 
-Theorem fragments_exact fuel C Sc frs ins o doc ins' mix unp :
+Theorem fragments_exact fuel C Sc frs ins o doc ins' :
   op_document fuel C Sc frs ins o = Ok (doc, ins') ->
-  op_sets fuel C Sc frs ins o = Ok (mix, unp) ->
-  exact_guard fuel frs o mix unp = true ->
   (forall n, In n (doc_fragment_names doc) <-> reach frs (sel_spreads (o_sel o)) n)
   /\ NoDup (doc_fragment_names doc).
 Proof.
-  intros Hd Hs Hg. unfold op_sets in Hs. unfold op_document in Hd.
-  destruct (String.eqb (o_name o) ""); [discriminate|].
-  destruct (root_type_name Sc (o_kind o)) as [tn|]; cbn [bind] in *; [|discriminate].
-  destruct (ptd fuel C Sc frs (map proj_frag frs) (fresh ins) (pascal_s (o_name o)) tn None (o_sel o) false)
-    as [st|]; cbn [bind] in *; [|discriminate].
-  inversion Hs; subst; clear Hs.
-  destruct (related fuel frs (ps_mix st) (ps_unp st)) as [rel|] eqn:Er; [|discriminate].
-  destruct (lookup_all frs rel) as [defs|] eqn:El; [|discriminate].
-  inversion Hd; subst; clear Hd.
+  intro Hd. apply op_document_shape in Hd as (st & rel & defs & Er & El & -> & -> & _).
   rewrite (doc_fragment_names_shape _ defs (fun f => strip_fd (apply_fd (ps_ins st) f))) by reflexivity.
-  apply lookup_all_In in El as [_ ->].
-  unfold exact_guard in Hg. rewrite Er in Hg. apply andb_true_iff in Hg as [Hc Hr].
-  eapply related_exact; eassumption.
+  apply lookup_all_In in El as [_ ->]. eapply related_exact. exact Er.
 Qed.
 
 (* ---------------------------------------------------------------- the traversal records only reachable fragments *)
@@ -666,24 +620,6 @@ Section Sound.
 End Sound.
 
 
-(* fragments_exact with the coverage guard alone, stated on the sent document *)
-Theorem fragments_exact_covered Sc fuel C frs ins o doc ins' mix unp l :
-  op_document fuel C Sc frs ins o = Ok (doc, ins') ->
-  op_sets fuel C Sc frs ins o = Ok (mix, unp) ->
-  frag_names fuel frs (sel_spreads (o_sel o)) = Some l ->
-  covered frs o (doc_fragment_names doc) unp = true ->
-  (forall n, In n (doc_fragment_names doc) <-> reach frs (sel_spreads (o_sel o)) n)
-  /\ NoDup (doc_fragment_names doc).
-Proof.
-  intros Hd Hs Hl Hc. eapply fragments_exact; [exact Hd | exact Hs |].
-  unfold exact_guard.
-  pose proof Hd as Hd'. apply op_document_shape in Hd' as (st & rel & defs & Er & Ell & -> & -> & Hs').
-  rewrite (doc_fragment_names_shape _ defs (fun f => strip_fd (apply_fd (ps_ins st) f))) in Hc by reflexivity.
-  apply lookup_all_In in Ell as [_ Ell]. rewrite Ell in Hc.
-  assert (E : ps_mix st = mix /\ ps_unp st = unp) by (rewrite Hs in Hs'; inversion Hs'; auto).
-  destruct E as [<- <-]. rewrite Er, Hc. cbn [andb]. eapply recorded_is_reachable; eassumption.
-Qed.
-
 (* ---------------------------------------------------------------- witnesses *)
 Definition fld (id : nat) (n : string) (sub : option (list fsel)) : fsel := FField id None n [] [] sub.
 
@@ -723,12 +659,16 @@ Lemma W_drop_reach : reach W_drop_frs (sel_spreads (o_sel W_drop_op)) "NF".
 Proof. apply reach_direct. simpl. left. reflexivity. Qed.
 
 Lemma W_drop_doc : exists doc ins', op_document 50 W_cfg W_schema W_drop_frs [] W_drop_op = Ok (doc, ins')
-                                    /\ doc_fragment_names doc = [].
+                                    /\ doc_fragment_names doc = ["NF"].
 Proof. eexists. eexists. split; vm_compute; reflexivity. Qed.
 
-Lemma W_mixin_doc : exists doc ins' f,
+Definition has_mixin (d : ddef) : bool :=
+  match d with
+  | XFrag f => existsb (fun d => String.eqb (d_name d) "mixin") (fd_dirs f)
+  | XOp o => existsb (fun d => String.eqb (d_name d) "mixin") (o_dirs o)
+  end.
+
+Lemma W_mixin_doc : exists doc ins',
   op_document 50 W_cfg W_schema W_mixin_frs [] W_mixin_op = Ok (doc, ins') /\
-  In (XFrag f) doc /\ existsb (fun d => String.eqb (d_name d) "mixin") (fd_dirs f) = true.
-Proof.
-  eexists. eexists. eexists. split; [vm_compute; reflexivity|]. split; [right; left; reflexivity | reflexivity].
-Qed.
+  doc_fragment_names doc = ["F"] /\ existsb has_mixin doc = false.
+Proof. eexists. eexists. split; [vm_compute; reflexivity|]. split; reflexivity. Qed.
